@@ -77,7 +77,9 @@ CLAIMS = {
         "length / capacity guards composed with read_memory_by_pid for every 64-bit length field; StructureMember::value for every "
         "member offset and size against 8 fetched bytes; scalar decoding with fewer bytes than the type needs; PointerValue::slice "
         "arithmetic for every pointer, element size and user-typed bounds; the DAP completions text/column arithmetic for every "
-        "i64 column. Every panic, overflow and pointer check CBMC generates in the reachable repository code is an obligation. "
+        "i64 column; a writeMemory with every 64-bit memoryReference and every i64 offset (reference + offset composed with the byte "
+        "writer exactly as the handler composes them: Ok or Err, no overflow, success only when the bytes are in memory); frameId "
+        "decoding for every i64. Every panic, overflow and pointer check CBMC generates in the reachable repository code is an obligation. "
         "Four defects found this way were repaired (fix: 2579f05, 8cef99b, f29c815, b0ea585).",
         "Trusted: Kani/CBMC; stubs of ptrace::read, read_memory_by_pid, ComplexType::type_size_in_bytes; the DWARF expression "
         "evaluator is cut (it trips an internal error of the Kani compiler when reachable). Outside the claim: command-line and DQE "
@@ -91,10 +93,17 @@ CLAIMS = {
         "contents and argument values; CallArgs::new refuses count mismatches and more than six arguments and never reaches the "
         "register mapping's unreachable!(); liter_to_arg_bin_repr puts the literal, truncated to the parameter's width, into the low "
         "bytes of the register for every i64 / bool / address literal and each supported DWARF base type, and refuses mismatching kinds; "
-        "the Formatter bytes injected for vard/argd (rustc >= 1.87 layout), read back through std's own accessors, carry exactly `{:?}`'s options.",
-        "Trusted: Kani/CBMC; HashMap -> association list in type.rs for the one-type ComplexType. Outside the claim (most of the "
-        "statement): that f runs once and every register and text byte is restored (CallContext / call_fn_raw need a live process), "
-        "vard/argd formatter injection, with_disabled_brkpts, the call cache.",
+        "the Formatter bytes injected for vard/argd (rustc >= 1.87 layout), read back through std's own accessors, carry exactly `{:?}`'s options; "
+        "Debugger::call_fn_raw end to end (CallContext, CallHelper::{mmap, jump, call_fn, munmap}) against a model of the stopped thread "
+        "in which every single step and the call itself replace the whole register file by arbitrary values and each stage may fail "
+        "(mmap -1, jump missed, munmap failed, one failing ptrace call at any position): on every way out all 27 registers and the "
+        "text bytes at the interrupted pc equal their values before the call, the function is started at most once (exactly once on "
+        "Ok) from the scratch page through `call *%rax; int3` with the arguments in place.",
+        "Trusted: Kani/CBMC; HashMap -> association list in type.rs for the one-type ComplexType; for call_fn_raw: ptrace getregs / "
+        "setregs / step / cont / waitpid, Debugger::write_memory, read_memory_by_pid, utils::region_exist, libc::sysconf stubbed onto the "
+        "thread model, a never-initialised &Debugger with only expl_context written. Outside the claim: that the CPU runs f exactly "
+        "once per PTRACE_CONT, the red zone below rsp, a failure of the final restore itself (documented expect), two or more faults, "
+        "with_disabled_brkpts (patch level: C02), the call cache.",
         "DESIGN.md sections 6 (C16) and 11"),
     "C10": (
         "Bounded model checking of the signal injection queue of Tracer::resume and the signal classification of apply_new_status, "
@@ -132,9 +141,11 @@ CLAIMS = {
         "is decided for every 64-bit register image, slot, length and condition against the Intel SDM layout; "
         "HardwareBreakpoint::{enable, disable, address_already_observed} are decided as one inductive step from an arbitrary "
         "invariant state of two threads' debug registers (slot choice, reuse, fifth-watchpoint refusal without side effects, no "
-        "stale enable bits, same image to every thread); a thread created later receives exactly the registry's last image.",
+        "stale enable bits, same image to every thread); a thread created later receives exactly the registry's last image; "
+        "after a restart WatchpointRegistry::refresh re-arms every surviving watchpoint (two, symbolic addresses / lengths / conditions) "
+        "in every thread, the cached image equals the hardware image and a thread created afterwards inherits all of them.",
         "Trusted: Kani/CBMC/CaDiCaL; stubs of ptrace::read_user/write_user onto a static u_debugreg model; std HashMap replaced by an "
-        "association-list model in tracee.rs. Outside the claim: scoped watchpoints (companion breakpoints), survival across restart, "
+        "association-list model in tracee.rs. Outside the claim: scoped watchpoints (companion breakpoints), expression watchpoints across a restart, "
         "that the CPU raises #DB, old/new value rendering, more than two threads.",
         "DESIGN.md section 6, C14"),
     "C15": (
@@ -142,7 +153,9 @@ CLAIMS = {
         "MEM[a..a+n] for every content, alignment and n in {0,1,9} (8,16,17 thorough); the DAP byte writer write_bytes changes exactly "
         "[a, a+n) and nothing else for every content, alignment and n in {1,2,9} (8,17 thorough), across word boundaries; "
         "RegisterMap <-> user_regs_struct round-trips field by field for all 27 registers and update/value agree; setVariable text of "
-        "3 bytes for u8/i8/i16 stores bytes that read back as the typed number or is refused (found the silent-truncation defect, fix: 902e8ed).",
+        "3 bytes for u8/i8/i16 stores bytes that read back as the typed number or is refused (found the silent-truncation defect, fix: 902e8ed); the access address of readMemory / writeMemory / disassemble "
+        "is memoryReference + offset exactly for every base and offset (never a wrapped or negative sum), and a two-character reference "
+        "text denotes the number it spells (hex after 0x, decimal otherwise) or is refused.",
         "Trusted: Kani/CBMC; ptrace::read and Debugger::{read_memory, write_memory} stubbed onto byte-array models. Outside the claim: "
         "page boundaries / unmapped memory, disassembly masking, setVariable serialisation of composite values, float parsing.",
         "DESIGN.md section 6, C15"),
